@@ -14,7 +14,10 @@
 //!      response / echo / first-reflection measurement repeated ACROSS a device-rate change on a live effect
 //!      (filter_response_after_rate_change_R, eq_response_after_rate_change_R), on the bare effect and on a
 //!      sub-track of a real AudioManager (injector and tap effects around the effect under test, so that
-//!      the slices are the renderer's own), and bit-exact traces across the change (C13.Run.CaseSR).
+//!      the slices are the renderer's own), after HISTORIES of 1-4 device-rate changes (A->B, A->B->A, A->B->C->A,
+//!      A->B->B, A->B->A->B, A->B->C->B->A: returns to an earlier / the initial / the same rate), always against the
+//!      specification at the rate in force after the last change (reverb_after_rate_history_any; compressor with
+//!      per-segment time constants), and bit-exact traces through such histories (C14.Run.CHist).
 use crate::util::*;
 use kira::effect::compressor::CompressorBuilder;
 use kira::effect::delay::DelayBuilder;
@@ -1704,36 +1707,6 @@ fn emit_trace_t(s: &mut Session, cx: &Ctx, kind: &str, d: &Desc, sr: u32, t: usi
 	let k = key_of(&term);
 	s.case(kind, term, &obs, k);
 }
-/// init at `sr1`, process `in1`, `on_change_sample_rate(sr2)`, process `in2`: bit for bit against the model run with
-/// the coefficients of `sr1`, then (state carried over / lines rebuilt as the code does) with those of `sr2`
-fn emit_trace_sr(s: &mut Session, cx: &Ctx, kind: &str, d: &Desc, sr1: u32, sr2: u32, t: usize, in1: &[Frame], in2: &[Frame]) {
-	let segs: Vec<Seg> = vec![(sr1, calls_of(in1.len(), t)), (sr2, calls_of(in2.len(), t))];
-	let mut signal = in1.to_vec();
-	signal.extend_from_slice(in2);
-	let out = run_history(cx, d, t, &segs, &signal);
-	let obs = match &out {
-		Outcome::Ok(v) => {
-			let mut o = vec![0];
-			for f in v {
-				o.push(obs32(f.left));
-				o.push(obs32(f.right));
-			}
-			o
-		}
-		Outcome::Panic(c) => vec![1, *c],
-		Outcome::Hang => vec![2],
-	};
-	let mut tab = Tab::new();
-	d.oracle(sr1, &mut tab);
-	d.oracle(sr2, &mut tab);
-	comp_oracle(d, &[(sr1, in1), (sr2, in2)], &mut tab);
-	let tabs = format!("[{}]", tab.iter().map(|(t, a, b)| format!("({}, {}, {})", t, z(*a), z(*b))).collect::<Vec<_>>().join("; "));
-	let sl = |v: &[usize]| format!("[{}]", v.iter().map(|x| x.to_string()).collect::<Vec<_>>().join("; "));
-	let term = format!("CTrace (CaseSR {} {} {} {} {} {} {} {} {})", sr1, sr2, t, tabs, d.term(), sl(&segs[0].1), frames_term(in1), sl(&segs[1].1), frames_term(in2));
-	let k = key_of(&term);
-	s.case(kind, term, &obs, k);
-}
-
 fn sine(f: f64, sr: u32, n: usize, amp: f64) -> Vec<Frame> {
 	let th = 2.0 * std::f64::consts::PI * f / sr as f64;
 	(0..n).map(|i| Frame::new((amp * (th * i as f64).cos()) as f32, (amp * (th * i as f64).sin()) as f32)).collect()
@@ -1749,34 +1722,98 @@ fn tail_response(signal: &[Frame], out: &[Frame], win: usize) -> Cx {
 	}
 	acc.scale(1.0 / win as f64)
 }
-fn two_rates(r: &mut Rng, i: usize) -> (u32, u32) {
+/// a history of device rates: the first is the rate given to `init`, every later one is an `on_change_sample_rate`
+/// (1 to 4 changes; returns to an earlier rate, to the initial rate, and a change to the SAME rate included);
+/// measurements are taken in the last segment, against the specification at the rate then in force
+fn rate_history(r: &mut Rng, i: usize) -> Vec<u32> {
 	let a = if i % 4 == 3 { r.range(8000, 192000) as u32 } else { RATES[i % RATES.len()] };
-	loop {
-		let b = if i % 7 == 6 { r.range(8000, 192000) as u32 } else { *r.pick(&RATES) };
-		let ratio = b as f64 / a as f64;
-		if ratio > 1.05 || ratio < 0.95 {
-			return (a, b);
+	let far = |r: &mut Rng, from: &[u32], odd: bool| -> u32 {
+		loop {
+			let b = if odd { r.range(8000, 192000) as u32 } else { *r.pick(&RATES) };
+			if from.iter().all(|x| {
+				let q = b as f64 / *x as f64;
+				q > 1.05 || q < 0.95
+			}) {
+				return b;
+			}
 		}
+	};
+	let b = far(r, &[a], i % 7 == 6);
+	let c = far(r, &[a, b], i % 11 == 10);
+	match i % 6 {
+		0 => vec![a, b],
+		1 => vec![a, b, a],
+		2 => vec![a, b, c, a],
+		3 => vec![a, b, b],
+		4 => vec![a, b, a, b],
+		_ => vec![a, b, c, b, a],
 	}
 }
+fn hist_text(rates: &[u32], pre: &[usize], what: &str) -> String {
+	let mut s = format!("init({})", rates[0]);
+	for (j, n) in pre.iter().enumerate() {
+		if j > 0 {
+			s.push_str(&format!(", on_change_sample_rate({})", rates[j]));
+		}
+		s.push_str(&format!(", {} frames of {} at {} Hz", n, what, rates[j]));
+	}
+	s.push_str(&format!(", on_change_sample_rate({})", rates[rates.len() - 1]));
+	s
+}
+fn hist_segs(rng: &mut Rng, rates: &[u32], lens: &[usize], t: usize, on_track: bool) -> Vec<Seg> {
+	rates.iter().zip(lens.iter()).map(|(sr, n)| (*sr, if on_track { gen_callbacks(rng, *n, t) } else { calls_of(*n, t) })).collect()
+}
 
-/// every kind of frequency-response measurement repeated ACROSS a device-rate change on a live effect: the corner /
-/// centre must sit at the requested frequency in hertz at the rate in force afterwards
-/// (filter_response_after_rate_change_R, eq_response_after_rate_change_R)
+/// a history, bit for bit against the model: init at the first rate, `on_change_sample_rate` + the coefficients of
+/// the new rate for every later segment (state carried over / lines rebuilt as C13's change_rate says)
+fn emit_trace_hist(s: &mut Session, cx: &Ctx, kind: &str, d: &Desc, t: usize, parts: &[(u32, Vec<Frame>)]) {
+	let segs: Vec<Seg> = parts.iter().map(|(sr, v)| (*sr, calls_of(v.len(), t))).collect();
+	let signal: Vec<Frame> = parts.iter().flat_map(|(_, v)| v.iter().copied()).collect();
+	let out = run_history(cx, d, t, &segs, &signal);
+	let obs = match &out {
+		Outcome::Ok(v) => {
+			let mut o = vec![0];
+			for f in v {
+				o.push(obs32(f.left));
+				o.push(obs32(f.right));
+			}
+			o
+		}
+		Outcome::Panic(c) => vec![1, *c],
+		Outcome::Hang => vec![2],
+	};
+	let mut tab = Tab::new();
+	for (sr, _) in parts {
+		d.oracle(*sr, &mut tab);
+	}
+	let osegs: Vec<(u32, &[Frame])> = parts.iter().map(|(sr, v)| (*sr, v.as_slice())).collect();
+	comp_oracle(d, &osegs, &mut tab);
+	let tabs = format!("[{}]", tab.iter().map(|(t, a, b)| format!("({}, {}, {})", t, z(*a), z(*b))).collect::<Vec<_>>().join("; "));
+	let sl = |v: &[usize]| format!("[{}]", v.iter().map(|x| x.to_string()).collect::<Vec<_>>().join("; "));
+	let hs = parts.iter().zip(segs.iter()).map(|((sr, v), sg)| format!("({}, {}, {})", sr, sl(&sg.1), frames_term(v))).collect::<Vec<_>>().join("; ");
+	let term = format!("CHist {} {} {} [{}]", t, tabs, d.term(), hs);
+	let k = key_of(&term);
+	s.case(kind, term, &obs, k);
+}
+
+/// every kind of frequency-response measurement repeated after a HISTORY of device-rate changes on a live effect:
+/// the corner / centre must sit at the requested frequency in hertz at the rate in force after the last change
+/// (filter_response_after_rate_change_R, eq_response_after_rate_change_R: any list of rates)
 fn sec_rate_change_response(s: &mut Session, cx: &Ctx, rng: &mut Rng, n_filter: usize, n_eq: usize) {
 	let mut st = RespStats { worst_rel: 0.0, worst_at: String::new(), count: 0 };
 	let win = 4096usize;
 	for i in 0..n_filter + n_eq {
 		let is_eq = i >= n_filter;
-		let (ra, rb) = two_rates(rng, i);
-		let ny = ra.min(rb) as f64 / 2.0;
+		let rates = rate_history(rng, i);
+		let rb = *rates.last().unwrap();
+		let ny = *rates.iter().min().unwrap() as f64 / 2.0;
 		let fc = 200.0 * (ny * 0.8 / 200.0).powf(rng.unit_f64());
 		// every third configuration on a real track
 		let on_track = i % 3 == 2;
 		let t = if on_track { *rng.pick(&[32usize, 128]) } else { T };
 		let (d, k_eff, fc_eff): (Desc, f64, f64);
-		let mode = (i % 4) as u8;
-		let kind = (i % 3) as u8;
+		let mode = ((i / 6) % 4) as u8;
+		let kind = ((i / 6) % 3) as u8;
 		let res = rng.unit_f64() * 0.9;
 		let gain = (-18.0 + rng.unit_f64() * 36.0) as f32;
 		let q = 0.4 + rng.unit_f64() * 4.0;
@@ -1806,24 +1843,30 @@ fn sec_rate_change_response(s: &mut Session, cx: &Ctx, rng: &mut Rng, n_filter: 
 		};
 		let probes = [fc, (20.0 * (rb as f64 / 2.0 * 0.98 / 20.0).powf(rng.unit_f64())).max(20.0)];
 		for (pi_, f) in probes.iter().enumerate() {
-			let n_a = 64 + rng.range(0, 3000) as usize;
 			let warm = ir_len(rb, fc_eff.max(5.0), k_eff.min(2.0)).min(400_000);
 			let n_b = warm + win;
-			let mut signal = sine(*f, ra, n_a, 0.5);
-			signal.extend(sine(*f, rb, n_b, 0.5));
-			let segs: Vec<Seg> = if on_track { vec![(ra, gen_callbacks(rng, n_a, t)), (rb, gen_callbacks(rng, n_b, t))] } else { vec![(ra, calls_of(n_a, t)), (rb, calls_of(n_b, t))] };
+			let mut lens: Vec<usize> = rates[..rates.len() - 1].iter().map(|_| 64 + rng.range(0, 3000) as usize).collect();
+			let pre = lens.clone();
+			lens.push(n_b);
+			let mut signal = vec![];
+			for (sr, n) in rates.iter().zip(lens.iter()) {
+				signal.extend(sine(*f, *sr, *n, 0.5));
+			}
+			let segs = hist_segs(rng, &rates, &lens, t, on_track);
 			let desc = format!(
-				"{:?}, {}: init({ra}), {n_a} frames of a {f:.3} Hz sine at {ra} Hz, on_change_sample_rate({rb}), then {n_b} frames of the sine at {rb} Hz (dt = 1/{rb}); response measured on the last {win} frames",
+				"{:?}, {}: {}, then {n_b} frames of the {f:.3} Hz sine at {rb} Hz (dt = 1/{rb}); response measured on the last {win} frames",
 				d,
-				if on_track { format!("on a sub-track of a real AudioManager (internal buffer {t}, Renderer::on_change_sample_rate)") } else { format!("bare effect (process calls of {t} frames)") }
+				if on_track { format!("on a sub-track of a real AudioManager (internal buffer {t}, Renderer::on_change_sample_rate)") } else { format!("bare effect (process calls of {t} frames)") },
+				hist_text(&rates, &pre, &format!("a {f:.3} Hz sine"))
 			);
 			let Some(out) = run_either(s, cx, &d, t, on_track, &segs, &signal, &desc) else { continue };
 			s.eval_only(match (is_eq, on_track) {
-				(false, false) => "mon_filter_response_after_rate_change",
-				(false, true) => "mon_filter_response_after_rate_change_track",
-				(true, false) => "mon_eq_response_after_rate_change",
-				(true, true) => "mon_eq_response_after_rate_change_track",
+				(false, false) => "mon_filter_response_after_rate_history",
+				(false, true) => "mon_filter_response_after_rate_history_track",
+				(true, false) => "mon_eq_response_after_rate_history",
+				(true, true) => "mon_eq_response_after_rate_history_track",
 			});
+			s.count(&format!("rate_history_{}_changes{}", rates.len() - 1, if rates[..rates.len() - 1].contains(&rb) { "_returning" } else { "" }));
 			let h = tail_response(&signal, &out, win);
 			let spec = spec_at(rb as f64, rb as f64, *f);
 			let (tr, ta) = resp_tol(fc, rb);
@@ -1835,16 +1878,18 @@ fn sec_rate_change_response(s: &mut Session, cx: &Ctx, rng: &mut Rng, n_filter: 
 				st.worst_at = format!("{desc} at {f:.3} Hz");
 			}
 			if !(err <= tr * spec.abs() + ta) {
-				let stale = spec_at(rb as f64, ra as f64, *f);
-				let hint = if h.sub(stale).abs() <= tr * stale.abs() + ta {
-					format!("; it IS the response of coefficients computed for {ra} Hz used at {rb} Hz (|H| = {:.6}): the corner sits at {:.3} Hz instead of the requested {fc:.3} Hz", stale.abs(), fc * rb as f64 / ra as f64)
-				} else {
-					String::new()
-				};
+				let mut hint = String::new();
+				for ra in rates.iter().filter(|x| **x != rb) {
+					let stale = spec_at(rb as f64, *ra as f64, *f);
+					if h.sub(stale).abs() <= tr * stale.abs() + ta {
+						hint = format!("; it IS the response of coefficients computed for {ra} Hz used at {rb} Hz (|H| = {:.6}): the corner sits at {:.3} Hz instead of the requested {fc:.3} Hz", stale.abs(), fc * rb as f64 / *ra as f64);
+						break;
+					}
+				}
 				s.fail(
 					desc.clone(),
 					format!(
-						"{} after the device-rate change: measured response at {f:.4} Hz is {:.6}{:+.6}i (|H| = {:.6}), the cited design at {rb} Hz gives {:.6}{:+.6}i (|H| = {:.6}); |difference| = {:.3e} > {:.1e} |H| + {:.1e}{hint}",
+						"{} after the last device-rate change: measured response at {f:.4} Hz is {:.6}{:+.6}i (|H| = {:.6}), the cited design at {rb} Hz gives {:.6}{:+.6}i (|H| = {:.6}); |difference| = {:.3e} > {:.1e} |H| + {:.1e}{hint}",
 						if pi_ == 0 { "at the requested corner / centre frequency" } else { "probe frequency" },
 						h.re,
 						h.im,
@@ -1860,22 +1905,24 @@ fn sec_rate_change_response(s: &mut Session, cx: &Ctx, rng: &mut Rng, n_filter: 
 				);
 			}
 		}
-		// bit for bit across the change against the model run with the new dt (a few, short)
-		if i % 6 == 0 {
-			let in1 = noise(rng, 5, 0.9);
-			let in2 = noise(rng, 6, 0.9);
-			emit_trace_sr(s, cx, if is_eq { "trace_eq_rate_change" } else { "trace_filter_rate_change" }, &d, ra, rb, 4, &in1, &in2);
+		// bit for bit through the history against the model run with the dt of every segment (a few, short)
+		if i % 6 < 3 && (i / 6) % 2 == 0 {
+			let parts: Vec<(u32, Vec<Frame>)> = rates.iter().map(|sr| (*sr, noise(rng, 3 + (*sr as usize % 3), 0.9))).collect();
+			emit_trace_hist(s, cx, if is_eq { "trace_eq_rate_history" } else { "trace_filter_rate_history" }, &d, 4, &parts);
 		}
 	}
-	s.notes.push(format!("filter / EQ across a device-rate change: {} measured responses; worst |H_meas - H_spec| / (|H_spec| + 0.2) = {:.3e} at {}", st.count, st.worst_rel, st.worst_at));
+	s.notes.push(format!("filter / EQ after histories of device-rate changes: {} measured responses; worst |H_meas - H_spec| / (|H_spec| + 0.2) = {:.3e} at {}", st.count, st.worst_rel, st.worst_at));
 }
 
-/// delay and reverb across a device-rate change: the lines are rebuilt for the new rate (empty), so an impulse after
-/// the change comes back at multiples of floor(delay_time * new rate) / at the Freeverb tunings scaled to the new rate
+/// delay and reverb after a history of device-rate changes: the lines are rebuilt for the new rate (empty) on EVERY
+/// change, so an impulse after the last change comes back at multiples of floor(delay_time * rate in force) / at the
+/// Freeverb tunings scaled to the rate in force (reverb_after_rate_history_any) — also when that rate is the one the
+/// effect started with, or the same as before the change
 fn sec_rate_change_lines(s: &mut Session, cx: &Ctx, rng: &mut Rng, n_delay: usize, n_reverb: usize) {
 	for i in 0..n_delay {
-		let (ra, rb) = two_rates(rng, i);
-		let time = match i % 3 {
+		let rates = rate_history(rng, i);
+		let rb = *rates.last().unwrap();
+		let time = match (i / 6) % 3 {
 			0 => Duration::from_millis(rng.range(1, 60) as u64),
 			1 => Duration::from_micros(rng.range(50, 50_000) as u64),
 			_ => Duration::from_nanos(rng.range(10_000, 40_000_000) as u64),
@@ -1886,24 +1933,28 @@ fn sec_rate_change_lines(s: &mut Session, cx: &Ctx, rng: &mut Rng, n_delay: usiz
 		let t = if on_track { *rng.pick(&[32usize, 128]) } else { T };
 		let d = Delay { time, fb, mix, fx: vec![] };
 		let dd = exact_frames(time, rb);
-		let n_a = exact_frames(time, ra) + rng.range(1, 500) as usize;
 		let echoes = 4usize;
 		let n_b = dd * echoes + dd / 2 + 2;
 		let (a, b) = (1.0f32, -0.5f32);
+		let mut lens: Vec<usize> = rates[..rates.len() - 1].iter().map(|sr| exact_frames(time, *sr) + rng.range(1, 500) as usize).collect();
+		let pre = lens.clone();
+		let n_a: usize = pre.iter().sum();
+		lens.push(n_b);
 		let mut signal = noise(rng, n_a, 0.7);
 		let mut tail = vec![Frame::ZERO; n_b];
 		tail[0] = Frame::new(a, b);
 		signal.extend(tail);
-		let segs: Vec<Seg> = if on_track { vec![(ra, gen_callbacks(rng, n_a, t)), (rb, gen_callbacks(rng, n_b, t))] } else { vec![(ra, calls_of(n_a, t)), (rb, calls_of(n_b, t))] };
+		let segs = hist_segs(rng, &rates, &lens, t, on_track);
 		let desc = format!(
-			"{:?}, {}: init({ra}), {n_a} frames of noise at {ra} Hz, on_change_sample_rate({rb}), then an impulse ({a}, {b}) and {} frames of silence at {rb} Hz (delay_time = {} ns, floor(delay_time * {rb}) = {dd} frames)",
+			"{:?}, {}: {}, then an impulse ({a}, {b}) and {} frames of silence at {rb} Hz (delay_time = {} ns, floor(delay_time * {rb}) = {dd} frames)",
 			d,
 			if on_track { format!("on a sub-track of a real AudioManager (internal buffer {t})") } else { "bare effect".to_string() },
+			hist_text(&rates, &pre, "noise"),
 			n_b - 1,
 			time.as_nanos()
 		);
 		let Some(out) = run_either(s, cx, &d, t, on_track, &segs, &signal, &desc) else { continue };
-		s.eval_only(if on_track { "mon_delay_echoes_after_rate_change_track" } else { "mon_delay_echoes_after_rate_change" });
+		s.eval_only(if on_track { "mon_delay_echoes_after_rate_history_track" } else { "mon_delay_echoes_after_rate_history" });
 		let g = amp64(fb);
 		let (ws, ds) = mixw(mix);
 		for j in 0..n_b {
@@ -1919,72 +1970,189 @@ fn sec_rate_change_lines(s: &mut Session, cx: &Ctx, rng: &mut Rng, n_delay: usiz
 			let ok = if el == 0.0 && er == 0.0 { ol == 0.0 && or == 0.0 } else { close(ol, el, 2e-5, 1e-38) && close(or, er, 2e-5, 1e-38) };
 			if !ok {
 				let first = out[n_a + 1..].iter().position(|f| f.left != 0.0 || f.right != 0.0).map(|p| p + 1);
-				s.fail(desc.clone(), format!("frame {j} after the impulse is ({ol}, {or}), the echo train at the new rate says ({el}, {er}) [echo k at frame k*{dd} with gain g^k, g = {g}; nothing from before the change: the line is rebuilt]; first non-zero output after the impulse at {:?}", first), None);
+				s.fail(desc.clone(), format!("frame {j} after the impulse is ({ol}, {or}), the echo train at the rate in force says ({el}, {er}) [echo k at frame k*{dd} with gain g^k, g = {g}; nothing from before the change: the line is rebuilt on every change]; first non-zero output after the impulse at {:?}", first), None);
 				break;
 			}
 		}
 		if i % 5 == 0 {
 			let (r1, r2) = (*rng.pick(&[8000u32, 11025]), *rng.pick(&[16000u32, 22050]));
 			let dsmall = Delay { time: Duration::from_nanos(2 * 1_000_000_000 / r1 as u64 + 20_000), fb: -6.0, mix: 0.5, fx: vec![] };
-			let mut in2 = vec![Frame::ZERO; 10];
-			in2[0] = Frame::new(1.0, -0.5);
-			emit_trace_sr(s, cx, "trace_delay_rate_change", &dsmall, r1, r2, 4, &noise(rng, 5, 0.9), &in2);
+			let mut last = vec![Frame::ZERO; 10];
+			last[0] = Frame::new(1.0, -0.5);
+			let parts = if i % 10 == 0 { vec![(r1, noise(rng, 5, 0.9)), (r2, noise(rng, 4, 0.9)), (r1, last)] } else { vec![(r1, noise(rng, 5, 0.9)), (r2, last)] };
+			emit_trace_hist(s, cx, "trace_delay_rate_history", &dsmall, 4, &parts);
 		}
 	}
 	let mut worst = 0.0f64;
 	for i in 0..n_reverb {
-		let (ra, rb) = two_rates(rng, i + 2);
+		// mostly histories that come back (to the initial rate, to an earlier one, to the same one)
+		let rates = rate_history(rng, [1, 2, 3, 5, 4, 0][i % 6] + 6 * (i / 6) + 12);
+		let rb = *rates.last().unwrap();
 		let (fb, damp) = if i % 2 == 0 { (0.9, 0.1) } else { (rng.unit_f64() * 0.95, rng.unit_f64()) };
 		let on_track = i % 3 == 2;
 		let t = if on_track { 128 } else { T };
 		let d = Reverb { fb, damp, width: 1.0, mix: 1.0 };
-		let n_a = 2000 + rng.range(0, 3000) as usize;
 		let n_b = (rb as usize / 8).max(3000);
+		let mut lens: Vec<usize> = rates[..rates.len() - 1].iter().map(|_| 600 + rng.range(0, 2500) as usize).collect();
+		let pre = lens.clone();
+		let n_a: usize = pre.iter().sum();
+		lens.push(n_b);
 		let mut signal = noise(rng, n_a, 0.5);
 		let mut tail = vec![Frame::ZERO; n_b];
 		tail[0] = Frame::new(1.0, 0.5);
 		signal.extend(tail.clone());
-		let segs: Vec<Seg> = if on_track { vec![(ra, gen_callbacks(rng, n_a, t)), (rb, gen_callbacks(rng, n_b, t))] } else { vec![(ra, calls_of(n_a, t)), (rb, calls_of(n_b, t))] };
+		let segs = hist_segs(rng, &rates, &lens, t, on_track);
 		let desc = format!(
-			"{:?}, {}: init({ra}), {n_a} frames of noise at {ra} Hz, on_change_sample_rate({rb}), then an impulse (1, 0.5) and silence at {rb} Hz",
+			"{:?}, {}: {}, then an impulse (1, 0.5) and silence at {rb} Hz",
 			d,
-			if on_track { format!("on a sub-track of a real AudioManager (internal buffer {t})") } else { "bare effect".to_string() }
+			if on_track { format!("on a sub-track of a real AudioManager (internal buffer {t})") } else { "bare effect".to_string() },
+			hist_text(&rates, &pre, "noise")
 		);
 		let Some(out) = run_either(s, cx, &d, t, on_track, &segs, &signal, &desc) else { continue };
-		s.eval_only(if on_track { "mon_reverb_after_rate_change_track" } else { "mon_reverb_after_rate_change" });
+		s.eval_only(if on_track { "mon_reverb_after_rate_history_track" } else { "mon_reverb_after_rate_history" });
 		let out_b = &out[n_a..];
+		let fl = out_b.iter().position(|f| f.left != 0.0);
+		let fr = out_b.iter().position(|f| f.right != 0.0);
+		let (wl, wr) = (fv_len(1116, rb), fv_len(1116 + 23, rb));
+		let mut failed = false;
+		if fl != Some(wl) || fr != Some(wr) {
+			let tuned = rates.iter().find(|x| Some(fv_len(1116, **x)) == fl && Some(fv_len(1139, **x)) == fr);
+			s.fail(
+				desc.clone(),
+				format!(
+					"first reflection {:?} / {:?} frames after the impulse, Freeverb's shortest combs (1116 / 1139 samples at 44100 Hz) are floor(1116 * {rb} / 44100) = {} / {} frames at the rate in force{}",
+					fl,
+					fr,
+					wl,
+					wr,
+					match tuned {
+						Some(x) => format!("; {:?} / {:?} are the lengths for {x} Hz, a rate of the past: the network was not rebuilt for {rb} Hz", fl, fr),
+						None => String::new(),
+					}
+				),
+				None,
+			);
+			failed = true;
+		}
 		let reference = ref_freeverb(rb, fb, damp, 1.0, 1.0, &tail);
 		let peak = reference.iter().map(|p| p.0.abs().max(p.1.abs())).fold(1e-9, f64::max);
 		for j in 0..n_b {
 			let (el, er) = ((out_b[j].left as f64 - reference[j].0).abs(), (out_b[j].right as f64 - reference[j].1).abs());
-			worst = worst.max(el.max(er) / peak);
+			if !failed {
+				worst = worst.max(el.max(er) / peak);
+			}
 			if !(el <= 2e-4 * peak && er <= 2e-4 * peak) {
-				s.fail(desc.clone(), format!("frame {j} after the change: output ({}, {}) but the Freeverb network built for {rb} Hz (empty lines) gives ({:.9}, {:.9}) (peak {peak:.4})", out_b[j].left, out_b[j].right, reference[j].0, reference[j].1), None);
+				s.fail(desc.clone(), format!("frame {j} after the last change: output ({}, {}) but the Freeverb network built for {rb} Hz (empty lines) gives ({:.9}, {:.9}) (peak {peak:.4})", out_b[j].left, out_b[j].right, reference[j].0, reference[j].1), None);
 				break;
 			}
 		}
-		let fl = out_b.iter().position(|f| f.left != 0.0);
-		let fr = out_b.iter().position(|f| f.right != 0.0);
-		let (wl, wr) = (fv_len(1116, rb), fv_len(1116 + 23, rb));
-		if fl != Some(wl) || fr != Some(wr) {
-			s.fail(desc.clone(), format!("first reflection {:?} / {:?} frames after the impulse, Freeverb's shortest combs (1116 / 1139 samples at 44100 Hz) are {} / {} frames at {rb} Hz (at the old rate {ra} Hz: {} / {})", fl, fr, wl, wr, fv_len(1116, ra), fv_len(1139, ra)), None);
-		}
-		if i < 2 {
-			let (r1, r2) = if i == 0 { (441u32, 500u32) } else { (620, 441) };
-			let mut in2 = vec![Frame::ZERO; 14];
-			in2[0] = Frame::new(1.0, 0.5);
-			emit_trace_sr(s, cx, "trace_reverb_rate_change", &Reverb { fb: 0.8, damp: 0.2, width: 0.7, mix: 1.0 }, r1, r2, 8, &noise(rng, 13, 0.8), &in2);
+		if i < 3 {
+			let (r1, r2) = if i == 1 { (620u32, 441u32) } else { (441, 500) };
+			let mut last = vec![Frame::ZERO; 14];
+			last[0] = Frame::new(1.0, 0.5);
+			let parts = if i == 0 { vec![(r1, noise(rng, 13, 0.8)), (r2, last)] } else { vec![(r1, noise(rng, 6, 0.8)), (r2, noise(rng, 4, 0.8)), (r1, last)] };
+			emit_trace_hist(s, cx, "trace_reverb_rate_history", &Reverb { fb: 0.8, damp: 0.2, width: 0.7, mix: 1.0 }, 8, &parts);
 		}
 	}
-	s.notes.push(format!("reverb after a device-rate change: largest deviation from the f64 Freeverb reference built for the new rate / peak = {worst:.3e} (bound 2e-4)"));
-	// compressor across a rate change: the follower carries over, the time constants follow dt (bit for bit)
-	for i in 0..4 {
-		let (r1, r2) = (*rng.pick(&[8000u32, 44100]), *rng.pick(&[16000u32, 96000]));
-		let d = Comp { thr: -20.0 - i as f64, ratio: 4.0, att: Duration::from_micros(300), rel: Duration::from_micros(900), mk: 0.0, mix: 1.0 };
-		let mut in2 = vec![Frame::ZERO; 3];
-		in2.extend(noise(rng, 2, 0.05));
-		emit_trace_sr(s, cx, "trace_compressor_rate_change", &d, r1, r2, 2, &noise(rng, 4, 1.0), &in2);
+	s.notes.push(format!("reverb after histories of device-rate changes: largest deviation from the f64 Freeverb reference built for the rate in force / peak = {worst:.3e} (bound 2e-4)"));
+}
+
+/// compressor through a history of device rates: the follower carries over, attack / release coefficients are
+/// exp(-dt/tau) with the dt of the rate in force in EVERY segment (piecewise closed form with per-segment speeds);
+/// loud through all but the last segment (not settled), then a signal below the threshold
+fn sec_compressor_rate_history(s: &mut Session, cx: &Ctx, rng: &mut Rng, n_cfg: usize) {
+	let mut worst_db = 0.0f64;
+	for i in 0..n_cfg {
+		let rates = rate_history(rng, i);
+		let rb = *rates.last().unwrap();
+		let thr = -(10.0 + rng.unit_f64() * 30.0);
+		let ratio = *rng.pick(&[2.0, 4.0, 8.0, 3.0]);
+		let att = Duration::from_micros(rng.range(500, 8_000) as u64);
+		let rel = Duration::from_micros(rng.range(2_000, 40_000) as u64);
+		let mk = if i % 2 == 0 { 0.0 } else { (-6.0 + rng.unit_f64() * 12.0) as f32 };
+		let d = Comp { thr, ratio, att, rel, mk, mix: 1.0 };
+		let mkg = 10f64.powf(mk as f64 / 20.0);
+		let on_track = i % 3 == 2;
+		let t = if on_track { *rng.pick(&[16usize, 128]) } else { T };
+		let l1 = thr + 6.0 + rng.unit_f64() * (-thr - 6.0).max(1.0);
+		let l3 = thr - 1.0 - rng.unit_f64() * 12.0;
+		let (a1, a3) = (10f64.powf(l1 / 20.0) as f32, 10f64.powf(l3 / 20.0) as f32);
+		let (o1, o3) = ((20.0 * (a1 as f64).log10() - thr).max(0.0), (20.0 * (a3 as f64).log10() - thr).max(0.0));
+		// about one attack time per loud segment: the follower is still moving at every change
+		let mut lens: Vec<usize> = rates[..rates.len() - 1].iter().map(|sr| ((att.as_secs_f64() * (0.6 + rng.unit_f64()) * *sr as f64) as usize).clamp(32, 20_000)).collect();
+		let pre = lens.clone();
+		let n_a: usize = pre.iter().sum();
+		let n_b = ((rel.as_secs_f64() * 3.0 * rb as f64) as usize).clamp(64, 20_000);
+		lens.push(n_b);
+		let mut signal = vec![];
+		for j in 0..n_a {
+			signal.push(Frame::new(if j % 2 == 0 { a1 } else { -a1 }, a1));
+		}
+		for j in 0..n_b {
+			signal.push(Frame::new(if j % 3 == 0 { -a3 } else { a3 }, a3));
+		}
+		// closed form, segment by segment, with the coefficients of the rate in force
+		let mut env = vec![];
+		let mut e0 = 0.0f64;
+		for (j, (sr, n)) in rates.iter().zip(lens.iter()).enumerate() {
+			let dt = 1.0 / *sr as f64;
+			let (s_att, s_rel) = ((-dt / att.as_secs_f64()).exp(), (-dt / rel.as_secs_f64()).exp());
+			let o = if j + 1 == rates.len() { o3 } else { o1 };
+			let sp = if o < e0 { s_rel } else { s_att };
+			let start = e0;
+			for m in 1..=*n {
+				e0 = o + sp.powf(m as f64) * (start - o);
+				env.push(e0);
+			}
+		}
+		let segs = hist_segs(rng, &rates, &lens, t, on_track);
+		let desc = format!(
+			"{:?}, {}: {} and {n_b} frames at {:.2} dB (below the threshold) at {rb} Hz",
+			d,
+			if on_track { format!("on a sub-track of a real AudioManager (internal buffer {t})") } else { "bare effect".to_string() },
+			hist_text(&rates, &pre, &format!("a {:.2} dB signal (above the threshold)", 20.0 * (a1 as f64).log10())),
+			20.0 * (a3 as f64).log10()
+		);
+		let Some(out) = run_either(s, cx, &d, t, on_track, &segs, &signal, &desc) else { continue };
+		s.eval_only(if on_track { "mon_compressor_rate_history_track" } else { "mon_compressor_rate_history" });
+		let slope = 1.0 / ratio - 1.0;
+		for j in 0..signal.len() {
+			let want_db = env[j] * slope;
+			let got_db = 20.0 * ((out[j].left as f64 / signal[j].left as f64) / mkg).abs().log10();
+			let err = (got_db - want_db).abs();
+			worst_db = worst_db.max(err);
+			if !(err <= 0.02 + 2e-3 * want_db.abs()) {
+				let mut acc = 0usize;
+				let mut seg = 0usize;
+				for (k, n) in lens.iter().enumerate() {
+					if j < acc + n {
+						seg = k;
+						break;
+					}
+					acc += n;
+				}
+				s.fail(
+					desc.clone(),
+					format!(
+						"frame {j} (frame {} of segment {} at {} Hz): gain change {got_db:.5} dB, the follower with attack / release coefficients exp(-dt/{:?}) / exp(-dt/{:?}) for the dt of EVERY segment's rate gives {want_db:.5} dB",
+						j - acc,
+						seg + 1,
+						rates[seg],
+						att,
+						rel
+					),
+					None,
+				);
+				break;
+			}
+		}
+		if i < 6 {
+			let parts: Vec<(u32, Vec<Frame>)> = rates.iter().enumerate().map(|(j, sr)| (*sr, if j + 1 == rates.len() { noise(rng, 2, a3) } else { noise(rng, 2, 1.0) })).collect();
+			let dsmall = Comp { thr, ratio, att: Duration::from_micros(300), rel: Duration::from_micros(900), mk: 0.0, mix: 1.0 };
+			emit_trace_hist(s, cx, "trace_compressor_rate_history", &dsmall, 2, &parts);
+		}
 	}
+	s.notes.push(format!("compressor through histories of device rates: largest |measured - closed form| gain change = {worst_db:.3e} dB (bound 0.02 dB + 0.2 %)"));
 }
 
 pub fn run(args: &Args) {
@@ -2013,6 +2181,7 @@ pub fn run(args: &Args) {
 	sec_compressor(&mut s, &cx, &mut rng, 150 * big);
 	sec_compressor_gaps(&mut s, &cx, &mut rng, 48 * big);
 	sec_rate_change_response(&mut s, &cx, &mut rng, 72 * big, 48 * big);
-	sec_rate_change_lines(&mut s, &cx, &mut rng, 45 * big, 9 * big);
+	sec_rate_change_lines(&mut s, &cx, &mut rng, 48 * big, 12 * big);
+	sec_compressor_rate_history(&mut s, &cx, &mut rng, 36 * big);
 	s.finish();
 }
